@@ -25,6 +25,9 @@ pub struct HookEv {
 pub static HOOK_LOG: Mutex<Vec<HookEv>> = Mutex::new(Vec::new());
 /// panics observed in this process (the in-process server's tasks included)
 pub static PANICS: AtomicU64 = AtomicU64::new(0);
+/// universes that ended because nothing more arrived within the deadline (each costs the whole deadline: a job
+/// stops after a few of them - they are in the trace and judged there)
+pub static TIMEOUTS: AtomicU64 = AtomicU64::new(0);
 
 pub fn install_hook() {
     memcrs::verif::set_hook(Some(Arc::new(|ev: &memcrs::verif::Event| {
@@ -146,6 +149,8 @@ impl Client {
         let addr: SocketAddr = format!("127.0.0.1:{}", port).parse().unwrap();
         let s = TcpStream::connect_timeout(&addr, Duration::from_secs(2))?;
         s.set_nodelay(true)?;
+        // a server that has stopped reading must not hang the driver in a write
+        s.set_write_timeout(Some(Duration::from_secs(8)))?;
         let lp = s.local_addr()?.port();
         Ok(Client { s, port: lp, sent: 0 })
     }
@@ -394,6 +399,9 @@ pub fn run_stream_universe(srv: &Server, frames: &[Frame], seg: &[usize], u: usi
     if how != "done" {
         std::thread::sleep(Duration::from_millis(5));
     }
+    if how == "timeout" {
+        TIMEOUTS.fetch_add(1, Ordering::SeqCst);
+    }
     // the CAS counter is not reset between universes: compare the answers with the CAS field blanked
     let mut masked = resp.clone();
     let mut i = 0;
@@ -437,6 +445,9 @@ pub fn run_cut_universe(srv: &Server, bytes: &[u8], seg: &[usize], u: usize, com
     let _ = c.s.shutdown(Shutdown::Both);
     if how != "done" {
         std::thread::sleep(Duration::from_millis(5));
+    }
+    if how == "timeout" {
+        TIMEOUTS.fetch_add(1, Ordering::SeqCst);
     }
     let maxcap: u64 = hook_snapshot().iter().filter(|e| e.site == "conn.read" && e.nums[0] == lport as u64).map(|e| e.nums[3]).max().unwrap_or(0);
     let nreads = hook_snapshot().iter().filter(|e| e.site == "conn.read" && e.nums[0] == lport as u64).count();
